@@ -12,11 +12,17 @@ The proof does not look at `solve`: it only uses that the points-to map is `clos
 namespace Proofs.Effects
 open Synap.Effects
 
-theorem subset_spec {a b : List Nat} (h : subset a b = true) : ∀ x ∈ a, x ∈ b := by
-  intro x hx
-  unfold subset at h
-  rw [List.all_eq_true] at h
-  simpa using h x hx
+/-- bit `q` of row `v` is the root bit `(v, q)` -/
+theorem testBit_row (np pts v q : Nat) : (row np pts v).testBit q = (decide (q < np) && hasRoot np pts v q) := by
+  unfold row hasRoot
+  rw [Nat.testBit_mod_two_pow, Nat.testBit_shiftRight]
+
+/-- the row comparison of `closedStmt` means inclusion of root sets -/
+theorem row_sub {np pts u v : Nat} (h : (row np pts u ||| row np pts v) = row np pts v) {q : Nat}
+    (hq : q < np) (hu : hasRoot np pts u q = true) : hasRoot np pts v q = true := by
+  have h1 := congrArg (fun n => n.testBit q) h
+  simp only [Nat.testBit_or, testBit_row, hq, decide_true, Bool.true_and, hu, Bool.true_or] at h1
+  exact h1.symm
 
 /-- the invariant kept by every step: buffers bound to variables exist; a variable bound to a
     buffer that existed on entry refers to the initial buffer of one of the roots recorded for it;
@@ -25,7 +31,7 @@ structure Inv (k : Kernel) (pts : Pts) (s0 s : State) : Prop where
   next_le : s0.next ≤ s.next
   allocated : ∀ v b, s.env v = some b → b < s.next
   root : ∀ v b, s.env v = some b → b < s0.next →
-    ∃ q, q < k.nparams ∧ q ∈ look pts v ∧ s0.env q = some b
+    ∃ q, q < k.nparams ∧ hasRoot k.nparams pts v q = true ∧ s0.env q = some b
   kept : ∀ p ∈ k.protectedParams, ∀ b, s0.env p = some b → s.mem b = s0.mem b
 
 theorem inv_entry (k : Kernel) (pts : Pts) (s0 : State)
@@ -36,7 +42,7 @@ theorem inv_entry (k : Kernel) (pts : Pts) (s0 : State)
   refine ⟨v, hlt, ?_, hv⟩
   unfold closed at hc
   rw [Bool.and_eq_true, List.all_eq_true] at hc
-  simpa using hc.1 v (List.mem_range.mpr hlt)
+  exact hc.1 v (List.mem_range.mpr hlt)
 
 theorem inv_alloc (k : Kernel) (pts : Pts) (s0 s : State) (he : Entry k s0) (v : Nat) (c : List Int)
     (h : Inv k pts s0 s) : Inv k pts s0 (s.alloc v c) := by
@@ -63,18 +69,19 @@ theorem inv_alloc (k : Kernel) (pts : Pts) (s0 s : State) (he : Entry k s0) (v :
     exact h.kept p hp b hb
 
 theorem inv_step (k : Kernel) (pts : Pts) (s0 s t : State) (he : Entry k s0) (hsep : Separated k s0)
-    (hc : closed k.nparams pts k.body = true) (hw : writesOk pts k.protectedParams k.body = true)
+    (hc : closed k.nparams pts k.body = true) (hw : writesOk k.nparams pts k.protectedParams k.body = true)
     (h : Inv k pts s0 s) (st : Step k.body s t) : Inv k pts s0 t := by
   cases st with
   | fresh v c _ => exact inv_alloc k pts s0 s he v c h
   | aliasNew v srcs c _ => exact inv_alloc k pts s0 s he v c h
   | aliasSrc v srcs u b hmem hu hb =>
-    have hcl : ∀ x ∈ look pts u, x ∈ look pts v := by
+    have hcl : ∀ x, x < k.nparams → hasRoot k.nparams pts u x = true → hasRoot k.nparams pts v x = true := by
       unfold closed at hc
       rw [Bool.and_eq_true, List.all_eq_true, List.all_eq_true] at hc
       have h1 := hc.2 _ hmem
       simp only [closedStmt, List.all_eq_true] at h1
-      exact subset_spec (h1 u hu)
+      intro x hx hxu
+      exact row_sub (by simpa using h1 u hu) hx hxu
     refine ⟨h.next_le, ?_, ?_, h.kept⟩
     · intro w b' hw'
       simp only [upd] at hw'
@@ -87,7 +94,7 @@ theorem inv_step (k : Kernel) (pts : Pts) (s0 s t : State) (he : Entry k s0) (hs
       · rename_i hwv
         cases hw'
         obtain ⟨q, hq, hqu, hq0⟩ := h.root u b hb hb'
-        exact ⟨q, hq, hwv ▸ hcl q hqu, hq0⟩
+        exact ⟨q, hq, hwv ▸ hcl q hq hqu, hq0⟩
       · exact h.root w b' hw' hb'
   | write v b c hmem hb =>
     refine ⟨h.next_le, h.allocated, h.root, ?_⟩
@@ -98,19 +105,19 @@ theorem inv_step (k : Kernel) (pts : Pts) (s0 s t : State) (he : Entry k s0) (hs
     · -- the written buffer is the initial buffer of a protected parameter: impossible
       exfalso
       subst hbb
-      obtain ⟨q, _, hqv, hq0⟩ := h.root v b' hb (he.allocated p b' hb')
+      obtain ⟨q, hqlt, hqv, hq0⟩ := h.root v b' hb (he.allocated p b' hb')
       have hqp : q ∈ k.protectedParams := hsep p hp q b' hb' hq0
       unfold writesOk at hw
       rw [List.all_eq_true] at hw
       have h1 := hw _ hmem
       simp only [List.all_eq_true] at h1
-      have h2 := h1 q hqv
-      simp [hqp] at h2
+      have h2 := h1 q (List.mem_range.mpr hqlt)
+      simp [hqv, hqp] at h2
     · rw [if_neg hbb]
       exact h.kept p hp b' hb'
 
 theorem inv_trace (k : Kernel) (pts : Pts) (s0 s t : State) (he : Entry k s0) (hsep : Separated k s0)
-    (hc : closed k.nparams pts k.body = true) (hw : writesOk pts k.protectedParams k.body = true)
+    (hc : closed k.nparams pts k.body = true) (hw : writesOk k.nparams pts k.protectedParams k.body = true)
     (h : Inv k pts s0 s) (tr : Trace k.body s t) : Inv k pts s0 t := by
   induction tr with
   | done _ => exact h
@@ -119,7 +126,7 @@ theorem inv_trace (k : Kernel) (pts : Pts) (s0 s t : State) (he : Entry k s0) (h
 /-- **Soundness for any certified points-to map**: a `closed` map under which `writesOk` holds
     guarantees that no execution changes the buffer of a protected parameter. -/
 theorem certified_sound (k : Kernel) (pts : Pts)
-    (hc : closed k.nparams pts k.body = true) (hw : writesOk pts k.protectedParams k.body = true)
+    (hc : closed k.nparams pts k.body = true) (hw : writesOk k.nparams pts k.protectedParams k.body = true)
     (s0 s : State) (he : Entry k s0) (hsep : Separated k s0) (tr : Trace k.body s0 s) :
     ∀ p ∈ k.protectedParams, ∀ b, s0.env p = some b → s.mem b = s0.mem b :=
   (inv_trace k pts s0 s0 s he hsep hc hw (inv_entry k pts s0 hc he) tr).kept
@@ -134,6 +141,39 @@ theorem safe_sound (k : Kernel) (hs : safe k = true)
   unfold safe at hs
   rw [Bool.and_eq_true] at hs
   exact certified_sound k (solve k) hs.1 hs.2 s0 s he hsep tr
+
+/-- **What a variable can be bound to.**  Under a certified points-to map, whenever a variable is
+    bound to a buffer that existed on entry, that buffer is the entry buffer of one of the roots
+    recorded for the variable. -/
+theorem roots_sound (k : Kernel) (pts : Pts) (hc : closed k.nparams pts k.body = true)
+    (hw : writesOk k.nparams pts k.protectedParams k.body = true)
+    (s0 s : State) (he : Entry k s0) (hsep : Separated k s0) (tr : Trace k.body s0 s)
+    (v b : Nat) (hv : s.env v = some b) (hb : b < s0.next) :
+    ∃ q, q < k.nparams ∧ hasRoot k.nparams pts v q = true ∧ s0.env q = some b :=
+  (inv_trace k pts s0 s0 s he hsep hc hw (inv_entry k pts s0 hc he) tr).root v b hv hb
+
+/-- **Soundness of `returnsFresh`.**  If `safe k` and `returnsFresh k` then, after every trace from
+    every entry state, the result variable is bound (if at all) to a buffer that did not exist on
+    entry — in particular to none of the buffers the parameters were bound to, however they alias. -/
+theorem returnsFresh_sound (k : Kernel) (hs : safe k = true) (hf : returnsFresh k = true)
+    (s0 s : State) (he : Entry k s0) (hsep : Separated k s0) (tr : Trace k.body s0 s)
+    (b : Nat) (hr : s.env k.ret = some b) : s0.next ≤ b ∧ ∀ p b', s0.env p = some b' → b' ≠ b := by
+  unfold safe at hs
+  rw [Bool.and_eq_true] at hs
+  unfold returnsFresh at hf
+  rw [Bool.and_eq_true] at hf
+  have h0 : row k.nparams (solve k) k.ret = 0 := by simpa using hf.2
+  have hge : s0.next ≤ b := by
+    apply Nat.le_of_not_lt
+    intro hlt
+    obtain ⟨q, hq, hqr, _⟩ := roots_sound k (solve k) hs.1 hs.2 s0 s he hsep tr k.ret b hr hlt
+    have h1 := testBit_row k.nparams (solve k) k.ret q
+    rw [h0] at h1
+    simp [hq, hqr] at h1
+  refine ⟨hge, ?_⟩
+  intro p b' hp heq
+  have := he.allocated p b' hp
+  omega
 
 /-- when every parameter is protected, no separation hypothesis is needed: the parameters may
     alias one another in any way -/
@@ -161,23 +201,27 @@ theorem safe_sound_all (k : Kernel) (hs : safe k = true) (ha : allProtected k = 
 
 /-- `def f(x, y): v = x.reshape(-1); out = np.zeros(…); out[…] = v; w = out[1:]; w += y; return w` -/
 def goodKernel : Kernel :=
-  { name := "good", file := "", line := 0, nparams := 2, protectedParams := [0, 1],
+  { name := "good", file := "", line := 0, nparams := 2, protectedParams := [0, 1], ret := 5,
     body := [.assign 2 (.alias [0]), .assign 3 .fresh, .write 3, .assign 4 (.alias [3]), .write 4,
              .assign 5 (.alias [4])] }
 
 /-- `def f(x, y): v = x.reshape(-1); w = v[1:]; w[0] = 0` — a write through a view of a view of `x` -/
 def badKernel : Kernel :=
-  { name := "bad", file := "", line := 0, nparams := 2, protectedParams := [0, 1],
+  { name := "bad", file := "", line := 0, nparams := 2, protectedParams := [0, 1], ret := 3,
     body := [.assign 2 (.alias [0]), .assign 3 (.alias [2]), .write 3] }
 
 /-- the order of the statements does not matter: `t[0] = 0; t = x` (in a loop, the write of the
     second iteration hits `x`) -/
 def badLoopKernel : Kernel :=
-  { name := "badloop", file := "", line := 0, nparams := 1, protectedParams := [0],
+  { name := "badloop", file := "", line := 0, nparams := 1, protectedParams := [0], ret := 1,
     body := [.assign 1 .fresh, .write 1, .assign 1 (.alias [0])] }
 
 example : safe goodKernel = true := by decide
-example : solve goodKernel = [[0], [1], [0], [], [], []] := by decide
+example : (List.range 6).map (fun v => (List.range 2).filter (hasRoot 2 (solve goodKernel) v))
+    = [[0], [1], [0], [], [], []] := by decide
+example : returnsFresh goodKernel = true := by decide      -- `w` is a view of the fresh `out`
+example : returnsFresh badKernel = false := by decide      -- `w` is a view of `x`
+example : resultRoots badKernel = [0] := by decide
 example : safe badKernel = false := by decide
 example : safe badLoopKernel = false := by decide
 example : allProtected goodKernel = true := by decide
